@@ -276,13 +276,14 @@ def Sim.svcStep (s : Sim) (j : Json) : Option (Sim × Json) :=
     let cuid := if getS m "cuid" ≠ "" then getS m "cuid" else cl.cuid
     let col := if getS m "col" ≠ "" then getS m "col" else boundCol
     let fault := getS j "fault"
-    let send (st : Store) : Store × Rpc (List Pack) × List Notification :=
+    let send (st0 : Store) : Store × Rpc (List Pack) × List Notification :=
+      let (st, left) := st0.committedView
       let (st1, r, ns, jobs) := st.processPushPull col cuid packs
       let st2 := if fault = "nosnap" then st1 else jobs.foldl (fun acc (duid, colNum) =>
         match acc.collections.find? (fun c => c.num = colNum) with
         | some cd => acc.updateSnapshot duid cd.name
         | none => acc) st1
-      (st2, r, ns)
+      (st2.withLeftovers left (jobs.map (·.1)), r, ns)
     let (st1, r1, ns1) := send s.store
     let (st2, r, ns, extra) : Store × Rpc (List Pack) × List Notification × List (String × Json) :=
       if fault = "dup" then
@@ -316,25 +317,27 @@ def Sim.svcStep (s : Sim) (j : Json) : Option (Sim × Json) :=
     let f : FaultAt := match cls with
       | "find:-_-Collections" => .findCollections | "find:-_-Clients" => .findClients
       | "find:-_-Datatypes" => .findDatatypes | "find:-_-Operations" => .findOperations
-      | "insert:-_-Operations" => .insertOperations | "update:-_-Datatypes" => .updateDatatypes
+      | "delete:-_-Operations" => .deleteLeftovers | "insert:-_-Operations" => .insertOperations | "update:-_-Datatypes" => .updateDatatypes
       | "bg:userdoc" => .bgUserDoc | _ => .background
-    let (st1, reply, ns) := s.store.processPushPullFault boundCol cl.cuid p f
+    let (sview, left) := s.store.committedView
+    let (st1, reply, ns) := sview.processPushPullFault boundCol cl.cuid p f
     -- background work: done unless it is the faulted part
-    let pushedSomething := st1.operations.length > s.store.operations.length && f ≠ .updateDatatypes
+    let pushedSomething := st1.operations.length > sview.operations.length && f ≠ .updateDatatypes
+    let pushedDuids := if st1.operations.length > sview.operations.length then [p.duid, (s.wdt r).duid] else []
     let st2 := match f with
       | .background => st1
       | .bgUserDoc =>
         if pushedSomething then
-          let st' := (match st1.collections.find? (fun cd => cd.name = boundCol) with
+          let st' := (match st1.collections.find? (fun (cd : CollectionDoc) => cd.name = boundCol) with
             | some cd => st1.updateSnapshot (s.wdt r).duid cd.name | none => st1)
           { st' with userDocs := st1.userDocs }
         else st1
       | _ =>
         if pushedSomething then
-          (match st1.collections.find? (fun cd => cd.name = boundCol) with
+          (match st1.collections.find? (fun (cd : CollectionDoc) => cd.name = boundCol) with
             | some cd => st1.updateSnapshot (match reply with | .normal rp => rp.duid | _ => (s.wdt r).duid) cd.name | none => st1)
         else st1
-    let s1 := { s with store := st2 }
+    let s1 := { s with store := st2.withLeftovers left pushedDuids }
     let nj := listJ (fun (n : Notification) => Json.mkObj [("topic", Json.str n.topic), ("cuid", Json.str n.cuid),
           ("duid", Json.str n.duid), ("sseq", jnat n.sseq)]) ns
     match reply with
@@ -354,13 +357,14 @@ def Sim.svcStep (s : Sim) (j : Json) : Option (Sim × Json) :=
       let (s2, posts) := { s with held := s.held.filter (fun x => x.1 ≠ h) }.applyPacks rs ps
       some (s2, Json.mkObj [("posts", posts)])
   | "patch" =>
-    let (st1, r, ns, jobs) := s.store.patchDocument (getS j "col") (getS j "key") (JVal.ofJson (getJ j "json"))
+    let (sview, left) := s.store.committedView
+    let (st1, r, ns, jobs) := sview.patchDocument (getS j "col") (getS j "key") (JVal.ofJson (getJ j "json"))
                                 (getS j "duid") (getS j "cuid")
     let st2 := jobs.foldl (fun acc (duid, colNum) =>
       match acc.collections.find? (fun c => c.num = colNum) with
       | some cd => acc.updateSnapshot duid cd.name
       | none => acc) st1
-    some ({ s with store := st2 }, Json.mkObj [("rpc", rpcJ r),
+    some ({ s with store := st2.withLeftovers left (jobs.map (·.1)) }, Json.mkObj [("rpc", rpcJ r),
       ("json", match r with | .ok v => v.toJson | _ => Json.null),
       ("notifs", listJ (fun (n : Notification) => Json.mkObj [("topic", Json.str n.topic), ("cuid", Json.str n.cuid),
           ("duid", Json.str n.duid), ("sseq", jnat n.sseq)]) ns)])
